@@ -105,6 +105,20 @@ theorem bge_step {n : Nat} (s : RVState n) (rs1 rs2 : Reg) (off : BitVec 13)
       | true => exact absurd ((bge_taken_iff _ _).1 hb) h
     simp [specStep, this, h, RVState.next]
 
+/-- one step of BGEU: taken exactly when rs1 ≥ rs2 as unsigned integers -/
+theorem bgeu_step {n : Nat} (s : RVState n) (rs1 rs2 : Reg) (off : BitVec 13)
+    (hal : aligned4 (s.pc + off.signExtend n) = true) :
+    (specStep s (.branch .geu rs1 rs2 off)).pc =
+      if (s.rd rs1).toNat ≥ (s.rd rs2).toNat then s.pc + off.signExtend n else s.pc + 4 := by
+  by_cases h : (s.rd rs1).toNat ≥ (s.rd rs2).toNat
+  · have : brTaken .geu (s.rd rs1) (s.rd rs2) = true := (bgeu_taken_iff _ _).2 h
+    simp [specStep, this, h, RVState.jump, hal]
+  · have : brTaken .geu (s.rd rs1) (s.rd rs2) = false := by
+      cases hb : brTaken .geu (s.rd rs1) (s.rd rs2) with
+      | false => rfl
+      | true => exact absurd ((bgeu_taken_iff _ _).1 hb) h
+    simp [specStep, this, h, RVState.next]
+
 example : aligned4 ((0x80000000 : BitVec 64) + (8 : BitVec 21).signExtend 64) = true := by decide
 example : aligned4 ((0x80000000 : BitVec 64) + (2 : BitVec 21).signExtend 64) = false := by decide
 example : aligned4 (jalrTarget (0x80000003 : BitVec 64) (1 : BitVec 12)) = true := by decide
